@@ -66,10 +66,13 @@ def gen_case(rng, i):
     shared_list = None
     if shared_mode == "explicit":
         cand = [i for i in srg if i not in around_leaves]
-        if not cand:
-            return None
-        k = int(rng.integers(1, len(cand) + 1))
-        shared_list = [int(x) for x in rng.choice(cand, size=k, replace=False)]
+        if rng.random() < 0.12:
+            shared_list = []  # frozen trunk: only the heads are trained (shared_params given as an empty collection)
+        else:
+            if not cand:
+                return None
+            k = int(rng.integers(1, len(cand) + 1))
+            shared_list = [int(x) for x in rng.choice(cand, size=k, replace=False)]
     tasks_lists = None
     if tasks_mode == "explicit":
         tasks_lists = []
